@@ -333,6 +333,12 @@ def case_loads(rep):
                     p.assemble.vector(fb)
                     p.update(float(rng.uniform(-2, 2)))
                     p.assemble.vector(fb)
+                    # the usual call: the volume field of the solid is handed over (another container with its own value
+                    # array), at a new state every time; the force must belong to the state passed in
+                    for _ in range(3):
+                        field[0].values[:] = gen.random_displacement(rng, mesh, grad=float(rng.uniform(0.1, 0.3)))
+                        p.assemble.vector(field)
+                        run.units["pressure:volume-field-handed-over"] += 1
             # constraints
             mesh = fem.Cube(n=(3, 3, 2))
             mesh.update(points=np.vstack([mesh.points, [0.5, 0.5, 1.4]]))
@@ -379,7 +385,7 @@ SPEC = {
         "balance:moment:SolidBody[FieldPlaneStrain]", "balance:force:SolidBody[FieldAxisymmetric]",
         "balance:force:SolidBody[Field,mixed]", "balance:moment:SolidBody[Field,mixed]",
         "balance:force:SolidBodyNearlyIncompressible[Field]", "balance:moment:SolidBodyNearlyIncompressible[Field]",
-        "balance:force:SolidBodyNearlyIncompressible[FieldAxisymmetric]", "resultant:SolidBodyForce", "resultant:SolidBodyGravity", "requested:SolidBodyForce", "requested:SolidBodyGravity", "requested:PointLoad", "requested:SolidBodyPressure",
+        "balance:force:SolidBodyNearlyIncompressible[FieldAxisymmetric]", "resultant:SolidBodyForce", "resultant:SolidBodyGravity", "requested:SolidBodyForce", "requested:SolidBodyGravity", "requested:PointLoad", "requested:SolidBodyPressure", "pressure:volume-field-handed-over",
         "resultant:PointLoad", "resultant:SolidBodyPressure[Field]:open", "resultant:SolidBodyPressure[Field]:closed",
         "resultant:SolidBodyPressure[Field]:closed-zero", "resultant:SolidBodyPressure[FieldPlaneStrain]:open",
         "resultant:SolidBodyPressure[FieldAxisymmetric]:open", "mass:symmetric", "mass:psd", "mass:total",
